@@ -50,6 +50,9 @@ type Case struct {
 	// EarlierHidden (with Earlier): the earlier use also had a relative arc in a path that was not
 	// drawn at all (transparent paint).
 	EarlierHidden bool `json:"earlier_hidden,omitempty"`
+	// Prelude: the graphic has an earlier path with an arc of another rotation and a zero-radius arc
+	// of this rotation.
+	Prelude bool `json:"prelude,omitempty"`
 	// PixelCircle: the radii are in exactly the inverse ratio of the two pixel scales.
 	PixelCircle bool `json:"pixel_circle,omitempty"`
 	// ViaBytes: the arc reaches the Renderer through decode.Decode, from a hand-assembled stream
@@ -187,6 +190,16 @@ func checkArc(c Case) error {
 		}
 	} else {
 		z.Reset(gen.VB(vb), ivg.DefaultPalette)
+		if c.Prelude {
+			// an earlier path of the same graphic: an arc on another ellipse with another rotation,
+			// then a zero-radius arc that carries this case's rotation
+			sx, sy := float32(c.Start[0]), float32(c.Start[1])
+			z.StartPath(0, sx+1, sy+1)
+			z.AbsArcTo(float32(math.Abs(float64(c.RX)))+1, float32(math.Abs(float64(c.RY)))+2.5, float32(c.Rot)+0.13, false, true, sx+3, sy+2)
+			z.AbsArcTo(0, 5, float32(c.Rot), false, true, sx+4, sy+4)
+			z.ClosePathEndPath()
+			rr.Calls = rr.Calls[:0]
+		}
 		z.StartPath(0, float32(c.Start[0]), float32(c.Start[1]))
 		if n := len(rr.Calls); c.Earlier != [2]int{} && n > 0 && rr.Calls[n-1].K == rast.MoveTo && rr.Calls[n-1].F[0] == earlierEnd[0] && rr.Calls[n-1].F[1] == earlierEnd[1] {
 			earlierCoincides++
@@ -386,6 +399,10 @@ func genMap(t *rapid.T, c *Case) {
 }
 
 func genRot(t *rapid.T) float64 {
+	if rapid.IntRange(0, 11).Draw(t, "rotmany") == 0 {
+		// many whole turns plus a fraction (an angle accumulated by an animation, say)
+		return float64(float32(float64(rapid.IntRange(-60000, 60000).Draw(t, "turns")) + float64(rapid.IntRange(0, 63).Draw(t, "rot64"))/64))
+	}
 	if rapid.Bool().Draw(t, "rotgrid") {
 		return float64(rapid.IntRange(0, 119).Draw(t, "rot120")) / 120
 	}
@@ -607,7 +624,14 @@ func TestArcs(t *testing.T) {
 			c.RX, c.RY, c.Rot = trunc30(c.RX), trunc30(c.RY), trunc30(c.Rot)
 			c.Want = nil // constructed for the values before truncation: the independent F.6.5 reference decides
 		}
+		c.Prelude = rapid.IntRange(0, 4).Draw(t, "prelude") == 0
 		nt, labels := classify(c)
+		if c.Prelude {
+			labels = append(labels, "earlier-path-with-another-rotation-then-a-zero-radius-arc-of-this-one")
+		}
+		if math.Abs(float64(c.Rot)) > 100 {
+			labels = append(labels, "rotation-of-many-whole-turns")
+		}
 		if c.PixelCircle {
 			labels = append(labels, "ellipse-that-the-map-turns-into-a-circle-of-pixels")
 		}
